@@ -224,8 +224,18 @@ def gen_scenario(rng: random.Random) -> list[list[str]]:
         return f"Mark: s{u[0]}"
     w1 = rng.choice([0.2, 0.3, 0.5, 0.8])
     w2 = rng.choice([0.2, 0.4, 1.0])
-    k = rng.randrange(18)
-    if k in (16, 17):
+    k = rng.randrange(20)
+    if k in (18, 19):
+        # a block ended from a Watch while an Alarm (or a second Watch) of the same block is about to enter its body or is
+        # between two body lines; the other condition goes on holding after the block has ended
+        t1 = rng.choice([0.8, 1.0, 1.3])
+        d = rng.choice([-0.3, -0.2, -0.1, 0.0, 0.1, 0.2, 0.3, 0.4])
+        other = rng.choice(["Alarm", "Alarm", "Watch"])
+        first = [f"    Watch: Run Time > {t1:g} s", "        End block"]
+        second = [f"    {other}: Run Time > {t1 + d:g} s", "        " + m(), "        " + m()]
+        body = first + second if rng.random() < 0.7 else second + first
+        lines = ["Base: s", "Block: sbE"] + body + ["    " + m(), "    Wait: 6s", "    " + m(), m(), "Wait: 2.5s", m()]
+    elif k in (16, 17):
         # a chain of macros called once, then a redefinition at the end of the chain closes a cycle, then called again
         names = ["RA", "RB", "RC", "RD"][:rng.choice([2, 3, 3, 4])]
         lines = []
@@ -282,7 +292,8 @@ def gen_scenario(rng: random.Random) -> list[list[str]]:
         lines = ["Base: s", "Macro: MA"] + ["    " + b for b in body] + [
             "Block: sb1", f"    Watch: Block Time > {w2} s", "        End block", "    Call macro: MA", m(), "Call macro: MA", m()]
     elif k == 1:    # nested blocks, the outer one ended from a Watch while the inner one is active
-        lines = ["Base: s", "Block: sb1", f"    Watch: Block Time > {w2} s", "        " + m(), "        End blocks",
+        lines = ["Base: s", "Block: sb1", f"    Watch: Block Time > {w2} s", "        " + m(),
+                 "        " + rng.choice(["End blocks", "End block", "End block"]),
                  "    Block: sb2", "        " + m(), f"        Wait: {w1}s", "        " + m(), "        End block", "    " + m(),
                  "    End block", m()]
     elif k == 2:    # alarm whose body is still busy when the condition holds again
